@@ -1,4 +1,4 @@
-import Xp.Proofs.C13h
+import Xp.Proofs.C13i
 import Xp.Gen.C13
 /-
 C13 — dynamic controllers and watches stay consistent under any interleaving.
@@ -158,6 +158,48 @@ theorem gc_never_stops_xr_or_revision_watch {ops : List Op} {s s' : Sys} (h : Re
   have := (gc_only_unreferenced_composed h ht hop hstep hbefore hafter).1
   rw [this] at hw
   rcases hw with h | h | h <;> cases h
+
+/-! ### restart after informer loss -/
+
+theorem reachable_of_runThread {cfg : Cfg} {ops : List Op} {s s' : Sys} {i k : Nat}
+    (hs : Reachable cfg ops s) (h : runThread cfg s i k = some s') : Reachable cfg ops s' := by
+  induction k generalizing s with
+  | zero => simp only [runThread, Option.some.injEq] at h; exact h ▸ hs
+  | succ k ih =>
+    simp only [runThread] at h
+    split at h
+    · rename_i s1 h1
+      exact ih (Reachable.step i {} hs h1) h
+    · cases h
+
+/-- A watch lost with its informer is re-established by the next start request — for a
+request that runs without interference: take any reachable state in which a `StartWatches n ws`
+call has not begun, controller `n` runs, and no other goroutine holds a lock (others may be
+anywhere between their lock sections). Let the call run alone and without faults. It returns
+nil, and every requested watch whose kind has no active informer (its informer was removed,
+or never existed) — or that has no source yet — then has a live handler registration that is
+recorded as the controller's source. (With interference the clause is false: finding D13,
+`restart_not_guaranteed_when_informer_shared_witness` below.) -/
+theorem restart_after_informer_loss {ops : List Op} {s : Sys} (h : Reachable Cfg.fixed ops s)
+    {i n cid : Nat} {ws : List Wid}
+    (ht : s.threads[i]? = some ⟨.startWatches n ws, .idle⟩) (hn : aget n s.ctrls = some cid)
+    (hquiet : ∀ (j : Nat) (u : Thread), s.threads[j]? = some u → j ≠ i → u.pc.held = ⟨.n, none⟩) :
+    ∃ k s', runThread Cfg.fixed s i k = some s' ∧ Reachable Cfg.fixed ops s' ∧
+      s'.threads[i]? = some ⟨.startWatches n ws, .done .ok⟩ ∧
+      ∀ w ∈ ws, (w.gvk ∉ s.tracked ∨ aget w (srcsOf s cid) = none) →
+        ∃ r ∈ s'.regs, r.cid = cid ∧ r.wid = w ∧ aget w.gvk s'.live = some r.gen ∧
+          aget w (srcsOf s' cid) = some r.id := by
+  have hinv := Inv_reachable h
+  obtain ⟨hv, hst⟩ := hinv.ctlValid n cid hn
+  obtain ⟨k, s', hrun, hdone, hregs⟩ := sw_alone (s := s) ⟨hquiet, hv, hst⟩ ht hn
+  have hr' := reachable_of_runThread h hrun
+  refine ⟨k, s', hrun, hr', hdone, ?_⟩
+  intro w hw hc
+  obtain ⟨r, hr, h1, h2⟩ := hregs w hw (hc.symm)
+  have hinv' := Inv_reachable hr'
+  refine ⟨r, hr, h1, h2, ?_, ?_⟩
+  · rw [← h2]; exact hinv'.regLive r hr
+  · rw [← h2, ← h1]; exact hinv'.own r hr
 
 /-! ### the breaks on the pinned commit (negation witnesses) -/
 
